@@ -3,6 +3,7 @@ import common
 import progcheck
 from e2e import exec_expr, node_truth, try_, meta_mismatch, concat_parts, _short
 import c06
+import c07_sources
 
 
 def dtype_mix(rt):
@@ -85,7 +86,10 @@ def run(run):
     ]
     run.rule = ("for ~65 derivations over a table with int/float(with all-null partition)/bool/str/category/datetime columns x 1/3/4 partitions, the C06 collection set, and every variable of generated programs, "
                 "at logical / optimized / fused stage: container kind, labels and order, names and dtype kinds of _meta vs EACH computed partition and vs the collection type; optimization keeps _meta; "
-                "non-trivial = collection with >= 2 partitions")
+                "column selections (single label / ordered pairs / triples / header permutations) absorbed by 22 source variants (read_csv/table/fwf with 1-3 files, blocksize, sep, names, usecols; "
+                "both parquet readers; from_pandas/map/dict/delayed) over 6 tables with unsorted headers (dtype mixes, missing values, all-null first partition, odd / integer / mixed labels) below 26 consumers: "
+                "declared schema (_meta and the .columns/.name/.dtypes accessors) vs compute(), vs each partition of the unoptimized / optimized / fused plan, vs the optimized plans' declaration, and node by node; "
+                "non-trivial = collection with >= 2 partitions (source selections: >= 2 selected labels)")
     run.proofs("PropC07.v")
     n = 0
     colls = [(t, c) for t, c in dtype_mix(rt)] + [(t, c) for t, c, _ in c06.collections(rt)]
@@ -123,6 +127,24 @@ def run(run):
         for v in vs:
             run.violation(v["what"], {"kind": "collection", "tag": tag})
     run.section("collections", checked=n)
+    # column selections absorbed by every kind of data source (readers with headers that are not in sorted order)
+    c07_sources.run_family(run)
     quick = run.tier == "quick"
     progcheck.run_programs(run, {"C07"}, 120 if quick else 3000, profile="l1", own={"C07"}, with_steps=False)
     progcheck.run_programs(run, {"C07"}, 80 if quick else 2000, profile="l2", own={"C07"}, with_steps=False)
+
+
+def replay(path):
+    import json
+    import os
+    os.makedirs(common.BUILD, exist_ok=True)
+    d = json.load(open(path))
+    case = d.get("case") or {}
+    if case.get("kind") != "source-selection":
+        print("C07 replay: only cases of kind source-selection can be replayed individually (this one: %r); rerun ./check C07 with seed %s" % (case.get("kind"), d.get("seed")))
+        return 2
+    found = c07_sources.replay_case(case)
+    for f in found:
+        print("VIOLATION property=C07 replay=%s :: %s" % (path, f))
+    print("C07 replay %s: %d finding(s)" % (path, len(found)))
+    return 1 if found else 0
